@@ -10,7 +10,7 @@ import sys
 import time
 from concurrent.futures import ThreadPoolExecutor
 
-V = '/verif'
+V = os.path.dirname(os.path.dirname(os.path.abspath(__file__)))   # the framework root (also works from a snapshot copy)
 BUILD = os.environ.get('VERIF_BUILD', V + '/build')
 NCPU = int(os.environ.get('VERIF_JOBS', '16'))
 JAVA_OPTS = '-Xss512m -Xms1g -Xmx%s -XX:+UseSerialGC'
